@@ -356,7 +356,7 @@ def build_case(w, prog, log, clock, scratch, sink_factory):
             elif k == 'expect':
                 case.expectThat(0, Never(a[1], a[2]))
             elif k == 'patch':
-                case.patch(scratch, 'a%d' % a[1], a[2])
+                case.patch(scratch, 'a%d' % a[1], attr_value(a[2]))
             elif k == 'useFixture':
                 case.useFixture(mk_fixture(a[1], a[2], a[3], case))
         if term == 'ret':
@@ -429,6 +429,42 @@ class Scratch:
     pass
 
 
+class AlwaysEq:
+    """an attribute value that compares equal to everything (mock.ANY style)"""
+    def __init__(self, v):
+        self.v = v
+
+    def __eq__(self, other):
+        return True
+
+    def __hash__(self):
+        return 0
+
+
+class NoTruth:
+    """an attribute value whose == result has no truth value (numpy-array style)"""
+    def __init__(self, v):
+        self.v = v
+
+    def __eq__(self, other):
+        class R:
+            def __bool__(self):
+                raise ValueError('truth value of a comparison is ambiguous')
+        return R()
+
+    def __hash__(self):
+        return 0
+
+
+def attr_value(v):
+    """attribute values are opaque naturals in the model; 100.. and 150.. stand for objects with unusual __eq__"""
+    return AlwaysEq(v) if 100 <= v < 150 else NoTruth(v) if 150 <= v < 200 else v
+
+
+def attr_canon(x):
+    return x.v if isinstance(x, (AlwaysEq, NoTruth)) else x
+
+
 def run_program(inp):
     """-> list of trace trees, one per run of the same instance"""
     w = world()
@@ -439,7 +475,7 @@ def run_program(inp):
     clock = Clock()
     scratch = Scratch()
     for a, v in attrs0:
-        setattr(scratch, 'a%d' % a, v)
+        setattr(scratch, 'a%d' % a, attr_value(v))
     sink_box = []
 
     def sink_factory():
@@ -461,7 +497,7 @@ def run_program(inp):
             raised = w.canon_exc(e)
             if raised[0] == 'unknown-exception':
                 raised = ['unknown-exception', type(e).__name__ + ':' + re.sub(r'[\s()]+', '_', str(e))[:80]]
-        attrs = sorted([int(k[1:]), v] for k, v in vars(scratch).items())
+        attrs = sorted([int(k[1:]), attr_canon(v)] for k, v in vars(scratch).items())
         traces.append([list(log), some(raised), bool(getattr(case, 'force_failure', False)), len(case._cleanups), attrs])
     return traces
 
@@ -550,6 +586,8 @@ class Gen:
         out = []
         for _ in range(self.rng.randint(lo, hi)):
             n = self.name()
+            if out and self.rng.random() < 0.3:
+                n = out[0][0] + [1]                 # 'foo' and 'foo-1' in ONE dict: renaming must not collide with a sibling
             if n not in [x[0] for x in out]:      # a details dict cannot hold a name twice
                 out.append([n, self.uc()])
         return out
@@ -627,7 +665,7 @@ class Gen:
         bo = self.stage(0, body=True, deco=xfail_deco)
         td = self.stage(0, quiet=0.7)
         n_on_exc = rng.choice([0, 0, 1, 2])
-        attrs0 = [[a, 10 + a] for a in range(3) if rng.random() < 0.4]
+        attrs0 = [[a, rng.choice([10, 10, 110, 160]) + a] for a in range(3) if rng.random() < 0.4]
         flavour = rng.choice(FLAVOURS)
         return ['prog', skip_deco, xfail_deco, su, bo, td, handlers, n_on_exc, attrs0, flavour]
 
